@@ -1,5 +1,6 @@
 """C19 - integer helpers (DESIGN 4 C19): W1 bit reversal, W2 byte-order accessors (BIT, exact ANF proofs),
 W3 integer square root (Newton template + start value per bit length), W4 lcm shape, W5 Euclid template."""
+import re
 import sympy as sp
 import symx, bit, alg, looptx, llir
 from bit import BV, ZERO, ONE
@@ -216,6 +217,12 @@ def lcm(ctx, w):
         seen_nz = seen_z = False
         for lf in leaves:
             c = lf.pc
+            if len(c) == 1 and isinstance(c[0], alg.Cond) and c[0].b == 0:
+                # the sibling of a smaller width: the arguments are silently truncated on the way in (a wider sibling would be harmless)
+                other = [f for f in sp.sympify(c[0].a).atoms(sp.Function) if re.match(r'a_u\d+_gcd$', f.func.__name__) and int(re.match(r'a_u(\d+)_gcd$', f.func.__name__).group(1)) < w]
+                if other:
+                    probs.append('divides by %s, expected the %d-bit gcd of (a, b)' % (other[0], w))
+                    continue
             if len(c) != 1 or not isinstance(c[0], alg.Cond) or c[0].a not in (g, g2) or c[0].b != 0:
                 raise Unsupported('lcm path condition %s is not a test of the gcd against zero' % c)
             if c[0].rel() == '!=':
